@@ -30,6 +30,10 @@ import (
 
 const poolEnv = "CHAINKIT_POOL_WORKER"
 
+// RequestTimeout bounds one request; a worker that does not answer in time is killed and Map
+// returns an error (a hang is an engine error, never a verdict).
+var RequestTimeout = 10 * time.Minute
+
 // Serve turns this process into a pool worker if it was started by StartPool and returns true
 // when the parent closed the request pipe. handler runs one request; its result is marshalled
 // as the response. Returns false immediately in any other process.
@@ -148,7 +152,11 @@ func (p *Pool) Map(reqs []interface{}, deadline time.Time) ([][]byte, error) {
 				}
 				var line []byte
 				if err == nil {
+					w.respF.SetReadDeadline(time.Now().Add(RequestTimeout))
 					line, err = w.resp.ReadBytes('\n')
+					if err != nil && w.cmd.Process != nil {
+						w.cmd.Process.Kill()
+					}
 				}
 				if err != nil {
 					w.dead = true
